@@ -102,6 +102,31 @@ CHECKS["C20"] = dict(
   note="text/msvs sets containing a newline are skipped (no escape in those grammars); single-module workspaces; planted sets n<=3.",
   design="3/C20")
 
+CHECKS["C01"] = dict(
+  level="exploration", engine="enum",
+  technique="bounded-exhaustive enumeration of file-level import DAGs x module assignments x target selections through the workspace builder and the CLI, against a reference targeting model and a direct protocompile compilation of the same texts",
+  text="All labelled DAGs on <=3 files (thorough 4) with plain/public edges, optional used/unused WKT imports, assignments to <=2 modules plus a pinned registry dependency, every module/--path/--exclude-path selection (|paths|<=2, |excludes|<=1) and the syntax of a distinguished file in {proto2, proto3, editions, unspecified} are built through bufworkspace+bufimage and `buf build -o -`; the image must contain exactly targets plus transitive imports, each once, imports before importers, IsImport iff not targeted, per-file descriptors incl. source info equal to a bare protocompile compile, unused-import and unspecified-syntax markers as the direct compiler warns, owner module name/commit, WKTs from datawkt unless supplied. For six base workspaces every single-token deletion and duplication: either it still compiles or there is no image and annotations carry the user's path and the direct compiler's line:column.",
+  note="Bounds: <=4 files, <=2 modules + one registry dependency, directory depth 2; the compiler is trusted as the oracle; root order among independent targets is C02's.",
+  design="3/C01")
+CHECKS["C03"] = dict(
+  level="exploration", engine="enum",
+  technique="bounded-exhaustive application of an edit-operator catalogue (>=1 operator per breaking rule, full ordered-pair field-type table) at every applicable position of generated schemas, x categories x single rules x config versions",
+  text="Three bases (proto2, proto3, edition 2023; four files; the same body at top level, nested once, nested twice, second file) x 43 edit operators incl. every ordered pair of 17-18 field kinds (7.5k instances quick, 14.5k thorough) x surroundings {none, additive before, additive after} x configs {all four categories, each category, each expected single rule} x buf.yaml v1beta1/v1/v2: whenever the documented rule is active the result must contain an annotation with that rule id whose message names the edited element and whose file and start line are the element's. Rule-to-category membership is an independent transcription of the documentation cross-checked against AllRules.",
+  note="The catalogue is a finite reading of the rule documentation; lines are checked, columns not; one recorded known finding (editions LEGACY_REQUIRED).",
+  design="3/C03")
+CHECKS["C04"] = dict(
+  level="exploration", engine="enum",
+  technique="bounded-exhaustive enumeration of cosmetic renderings, additive edit chains (every S_i against every earlier S_j) and arbitrary edit pairs for the category hierarchy, x categories x config versions",
+  text="(a) identity, all ordered pairs of 8 cosmetic renderings, and all chains of length <=2 (thorough 3) over 23 additive operators at an index-shifting site must report nothing in FILE, PACKAGE, WIRE_JSON, WIRE under v1beta1/v1/v2; (b) for every (old,new) pair of the C03 catalogue and ordered pairs of edited schemas: clean(FILE) => clean(PACKAGE) => clean(WIRE_JSON) => clean(WIRE).",
+  note="Chains stop at length 2 (3 over 12 core operators in thorough); edit pairs capped at 28/60 edited schemas per base.",
+  design="3/C04")
+CHECKS["C17"] = dict(
+  level="exploration", engine="enum",
+  technique="bounded-exhaustive enumeration of images x generation options on the request builders, of response file names x insertion kinds on the response writer with sentinels, and of both through `buf generate` with a recording plugin",
+  text="(A) images from file DAGs on <=3 (thorough 4) files over <=3 directories x strategy {all, directory} x include_imports x include_wkt x type filters: across all requests to one plugin every target appears in file_to_generate exactly once, imports/WKTs only when requested and once, proto_file closed under imports and ordered, source-retention options kept in source_file_descriptors and stripped from proto_file. (B) response file names from the C13 path alphabet x {plain, insertion into a file of this run / a previous run / the other plugin} x 1-2 plugins with shared or separate outs (dir, zip, jar): everything outside each out unchanged, insertion into a file not produced in this run is an error, the same path from two plugins is an error (all spellings of the out). (C) both halves through in-process `buf generate` with a recording/scripted protoc-gen-verif built at check start.",
+  note="Remote and protoc_builtin plugins, --clean, multi-module workspaces not covered; n=4 uses the 127 monotone labellings.",
+  design="3/C17")
+
 NOT_YET = {}
 
 def main():
